@@ -734,7 +734,14 @@ class QasmVisitor:
 
         unrolled_targets = self._unroll_multiple_target_qubits(operation, op_qubit_count)
         unrolled_gate_function = partial(qasm_func, *op_parameters)
-        result.extend(self._broadcast_gate_operation(unrolled_gate_function, unrolled_targets))
+        try:
+            result.extend(self._broadcast_gate_operation(unrolled_gate_function, unrolled_targets))
+        except TypeError as err:
+            raise_qasm3_error(
+                f"Invalid parameters {op_parameters} for gate {operation.name.name}",
+                span=operation.span,
+                raised_from=err,
+            )
 
         self._update_qubit_depth_for_gate(unrolled_targets)
 
